@@ -11,6 +11,8 @@ require (
 	github.com/prometheus/common v0.32.1
 	github.com/prometheus/prometheus v2.28.1+incompatible
 	github.com/sirupsen/logrus v1.8.1
+	k8s.io/api v0.22.7
+	k8s.io/apimachinery v0.22.7
 	k8s.io/client-go v0.22.7
 	pgregory.net/rapid v1.3.0
 	tkestack.io/kvass v0.0.0
@@ -140,8 +142,6 @@ require (
 	gopkg.in/inf.v0 v0.9.1 // indirect
 	gopkg.in/yaml.v2 v2.4.0 // indirect
 	gopkg.in/yaml.v3 v3.0.0-20210107192922-496545a6307b // indirect
-	k8s.io/api v0.22.7 // indirect
-	k8s.io/apimachinery v0.22.7 // indirect
 	k8s.io/klog/v2 v2.40.1 // indirect
 	k8s.io/kube-openapi v0.0.0-20211109043538-20434351676c // indirect
 	k8s.io/utils v0.0.0-20211116205334-6203023598ed // indirect
